@@ -5,6 +5,7 @@ import devgen, devrun
 from devprop import DevProp
 
 PANIC_KEY = 119   # KEY_PAUSE: outside every generator pool
+PANIC_KEY2 = 127  # KEY_COMPOSE: a second key mapped to panic (held by the base history while the first is inserted: C13_transparent_general)
 
 
 def k(code, val, sub=""):
@@ -38,7 +39,8 @@ class C13(DevProp):
                     "state; twin histories: inserting panic press+release changes no later output, the clean-up, or the final state)")
     correspondence_name = "C13 view (bytes of the panic steps)"
     rule = ("base alternating histories (all modes, channels 1-16 via defaults and channel walks, keys held or not); the panic key's press+release is "
-            "inserted at every position where no up/down pair is held (quick: sampled positions); each variant and the panic-free twin are run on the "
+            "inserted at every position where no up/down pair is held (quick: sampled positions), in 40 % of the configurations a second key mapped to panic is "
+            "pressed/held by the base history (the case C13_transparent_general adds); each variant and the panic-free twin are run on the "
             "real device and compared; non-trivial = distinct variants in which the panic triggered")
 
     def perturb(self, case, res):
@@ -55,9 +57,12 @@ class C13(DevProp):
         n_base = 45 if tier == "quick" else 600
         for i in range(n_base):
             cfg = devgen.gen_config(rng, with_exit=False, actions=[a for a in devgen.ACTIONS if a != "panic" and rng.random() < 0.8])
-            cfg["actions"].append({"code": PANIC_KEY, "action": "panic"})
             cfg["channel"] = rng.randint(1, 16)
-            h = devgen.gen_history(rng, cfg, rng.randint(8, 40), p_action=0.3)
+            two = rng.random() < 0.4
+            if two:
+                cfg["actions"].append({"code": PANIC_KEY2, "action": "panic"})
+            h = devgen.gen_history(rng, cfg, rng.randint(8, 40), p_action=0.4 if two else 0.3)
+            cfg["actions"].append({"code": PANIC_KEY, "action": "panic"})   # never pressed by the base history (alternation)
             if rng.random() < 0.5:
                 h = h + devgen.release_all(h)
             bi = len(cases)
